@@ -275,6 +275,23 @@ CLAIMS["C18"] = (
     "idioms enumerated in sa/props/c18.py.",
     "DESIGN.md §2 C18")
 
+CLAIMS["C17"] = (
+    "table/sibling extraction of the two bounds aggregations into normalised aggregation terms "
+    "(identity or fixed lattice lemmas) + order-domain abstract interpretation of membership => "
+    "admission",
+    "Decides on the parsed source: the advertised aggregation (PowerBoundsCalculator.calculate) and the "
+    "enforced one (BatteryManager._get_bounds) have identical inclusion terms Σ_g max/min(battery "
+    "aggregate, Σ inverter); the advertised exclusion terms Σ_g max/min(…) dominate the enforced "
+    "max/min(Σ…, Σ…) by the lemma table; a group's minimum power is max(b, min_i x_i) <= its share; "
+    "both sides aggregate batteries with the same function, count each group once and read the "
+    "whole group; the calculator's positional metric tables agree with the PowerBounds fields; and "
+    "for every weak ordering of the symbolic power and bounds consistent with those relations, "
+    "SystemBounds.__contains__(P) and P != 0 imply that _check_request admits P for both adjust "
+    "modes (exhaustive). Equality of the run-time data of the two sides is assumed by the property.",
+    "Trusted: the lattice lemmas listed in the evidence; interpreter semantics; is_close_to_zero read "
+    "as equality with zero.",
+    "DESIGN.md §2 C17")
+
 PENDING_REASON = ("no static check is registered for this property yet in this revision of the "
                   "machinery (planned rules are in DESIGN.md §2); nothing is claimed for it")
 
